@@ -149,6 +149,7 @@ def units(w):
             args.fresh = False
             env = real_env(w, it, {"compare": F.func("compare", ["a", "b"], lambda it_, vs: V.int(it_, it_.fresh("cmp"))),
                                    "identity": F.func("identity", ["obj"], lambda it_, vs: vs[0])})
+            it.global_overlay[("ckl.functions", "seed")] = SInt(z3.Int("seed0"))      # module invariant (C13): the generator state is a number
             return [f, args, env, V.pos(it, "cpos")], {}, {}
 
         def post(it, c, o):
@@ -304,7 +305,13 @@ def bounded(tier, seed):
     # data values produced by library functions from host data / by mutation (not by literals)
     for src in ["""parse_json('[0, 1, true, false, 2.5, "s"]')""", """parse_json('{"a": true, "b": [false, 1]}')""", "set(parse_json('[true, 1, 0]'))",
                 "set(parse_json('[0, 1, true]'))", "def m = <<<>>>; m[NULL] = 1; m[TRUE] = 2; m", "[int('7'), decimal('2'), boolean('1' == '1')]",
-                "[1 == 1, length('ab'), 7 / 2, 7.0 / 2, round(2.5), abs(-3)]", "<<NULL>>", "[NULL, [NULL]]"]:
+                "[1 == 1, length('ab'), 7 / 2, 7.0 / 2, round(2.5), abs(-3)]", "<<NULL>>", "[NULL, [NULL]]",
+                # numbers made by conversion and rounding functions, also from ints beyond 2^53
+                "[decimal(1180591620717411303424), decimal(3), decimal('2.5'), decimal(TRUE)]",
+                "[floor(1180591620717411303425), ceiling(1180591620717411303425), round(1180591620717411303425), floor(2.5), ceiling(-2.5), round(2.567, 2)]",
+                "[sum([1180591620717411303424, 0.5]), 1180591620717411303424 * 1.0, 1180591620717411303424 + 0.0, 1180591620717411303424 / 1.0, int(2.0), int('12')]",
+                "[sqrt(16), pow(2, 0.5), pow(2, 70), abs(-2.5), min([1, 2.0]), max([1, 2.0]), sum([1, 2]), sum([1, 2.0])]",
+                "object(<<<'b' => 1, 'a' => 2>>>)", "map(<*b = 1, a = 2*>)", "list(<<3, 1, 2>>)", "set([3, 1, 3])"]:
         ev += 1
         try:
             val = I.interpret(src, "-")
@@ -329,6 +336,20 @@ def bounded(tier, seed):
             ok, obs = False, f"{text if 'text' in dir() else src}: {e!r}"
         if not ok:
             fails.append({"id": f"bounded:round-trip[pattern without a literal form: {shape}]", "input": src, "observed": obs, "expected": "an equal pattern rendering to the same text"})
+    # equal containers built in different orders render identically - also when the orders differ in which of two equal
+    # numbers (1 and 1.0) comes first
+    for a, b in (("<<1, 1.0>>", "<<1.0, 1>>"), ("<<<1 => 'a', 1.0 => 'b'>>>", "<<<1.0 => 'a', 1 => 'b'>>>"), ("<<2, 1, 3>>", "<<3, 2, 1>>"),
+                 ("<<<'b' => 1, 'a' => 2>>>", "<<<'a' => 2, 'b' => 1>>>"), ("<<[1, 2], [1]>>", "<<[1], [1, 2]>>")):
+        ev += 1
+        try:
+            va, vb = I.interpret(a, "-"), I.interpret(b, "-")
+            ok = (va == vb) and str(va) == str(vb)
+            obs = f"{va} and {vb} (equal: {va == vb})"
+        except Exception as e:
+            ok, obs = False, repr(e)
+        if not ok:
+            fails.append({"id": f"bounded:equal-containers-render-identically-whatever-their-construction-order[{a} vs {b}]", "input": f"{a} vs {b}", "observed": obs,
+                          "expected": "one rendering"})
     if len(canon_sets) > 1 or len(canon_maps) > 1:
         fails.append({"id": "bounded:rendering-independent-of-insertion-order", "input": "all 24 insertion orders of 4 elements", "observed": str(sorted(canon_sets)[:2] + sorted(canon_maps)[:2]), "expected": "one rendering per value"})
     seen, uniq = set(), []
